@@ -1,4 +1,5 @@
 import Prism.Proofs.C09
+import Prism.Proofs.C09Cost
 
 #print axioms Prism.C09_consumed_le
 #print axioms Prism.C09_alloc_lazy
@@ -6,3 +7,7 @@ import Prism.Proofs.C09
 #print axioms Prism.C09_jpeg_segment_bounded
 #print axioms Prism.C09_mluc_wrap_is_error
 #print axioms Prism.C09_zero_tag_profile_alloc
+#print axioms Prism.C09_png_steps
+#print axioms Prism.C09_webp_steps
+#print axioms Prism.C09_jpeg_steps
+#print axioms Prism.C09_icc_steps
